@@ -24,6 +24,7 @@ THEOREMS = [
     "PyTrie.Props.NonVacuity.c04_op_keeps_complete",
     "PyTrie.Props.Raw.history_is_world_run",
     "PyTrie.Props.Free.op_is_executor_op",
+    "PyTrie.Props.Free.np_complete_after_commit",
 ]
 RULE = ("interleaved histories of several non-pruning tries over ONE shared database: set/delete on any trie, fresh tries "
         "opened at earlier roots, at_root snapshot reads, squash_changes blocks (normal exit, exception after n operations, n-th "
